@@ -45,6 +45,15 @@ THEOREMS = [
     "Lena.C20.exported_envs",
     "Lena.C20.resolver_alarm_is_real",
     "Lena.C20.explore_failed_real",
+    "Lena.C20.resolver_alarm_envs",
+    "Lena.C20.execEvs_step",
+    "Lena.C20.ext_step",
+    "Lena.C20.try_handler_catches",
+    "Lena.C20.raising_skips",
+    "Lena.C20.import_done_noop",
+    "Lena.C20.call_keeps_imported",
+    "Lena.C20.gbind_binds",
+    "Lena.C20.State.get_clearRow",
     "Lena.C20.import_ok_of_resolvesAll",
     "Lena.C20.exported_of_resolvesAll",
     "Lena.C20.load_resolves_iff",
@@ -91,9 +100,19 @@ ASSUMPTIONS = [
     "shows whether they exist and the bytecode oracle finds every function that loads one that does not",
     "names are created at module level by the statements the translator sees: globals()[...] = ... (flow/zip.py, counted "
     "in the evidence as dynamic), exec/eval and the Python-2 branches are outside the model",
-    "objects that are not lena modules are opaque: attributes of classes and instances are not checked",
+    "objects that are not lena modules are opaque: attributes of classes and instances are not checked (the statement "
+    "speaks of AttributeError on a lena module); lena.variables.abs / Cm exist and raise the documented "
+    "LenaAttributeError identically in both interpreters: outside the statement",
+    "closure cells are checked at the end of the statement that creates the inner function (the earliest call); reads "
+    "in comprehensions of the owner itself and Python-2 branches are not checked; globals()[computed key] = ... can "
+    "only add opaque bindings and is ignored (the cautious reading)",
 ]
-RULE = ("for every environment (every subset of the third-party modules that lena's import-time code imports -- here "
+RULE = ("translator coverage is asserted on every run (every Name/Attribute/import/function node of the source accounted "
+        "for, against an independent ast.walk count; per function the set of global names read must equal the bytecode's); "
+        "a self-test package (harness/c20_zoo: every construct incl. call-time global writes/deletes, closures, deep "
+        "chains, an unimportable package, deliberate violations) goes through the same translator, Lean definitions and "
+        "fresh interpreters and must agree; "
+        "for every environment (every subset of the third-party modules that lena's import-time code imports -- here "
         "jinja2 present / absent, produced in fresh interpreters with sys.modules[name] = None): "
         "exhaustive: every entry point (each of the 9 sub-packages alone, and all together) x every function/method/lambda "
         "of every module that entry loads (one case each: bytecode verdict vs model verdict), one case per entry for "
@@ -119,9 +138,11 @@ def _facts(tree="repo"):
     if tree == "repo":
         if _state["facts"] is None:
             _state["facts"] = extract_facts.extract(str(REPO))
+            _state["counts_repo"] = _count_source(_state["facts"], REPO)   # at the same moment (the tree may change)
         return _state["facts"]
     if _state.get("zoo_facts") is None:
         _state["zoo_facts"] = extract_facts.extract(str(ZOO))
+        _state["counts_zoo"] = _count_source(_state["zoo_facts"], ZOO)
     return _state["zoo_facts"]
 
 
@@ -160,17 +181,21 @@ def _greads_of(facts):
 
 
 def _source_counts(tree="repo"):
+    _facts(tree)
+    return _state["counts_" + tree]
+
+
+def _count_source(facts, root):
     """an independent count (plain ast.walk, no scoping) of what the translator must account for"""
     import ast
     import warnings
-    facts = _facts(tree)
     tot = {"names": 0, "attributes": 0, "imports": 0, "functions": 0}
     for m in facts["modules"]:
         if not m.get("path"):
             continue
         with warnings.catch_warnings():
             warnings.simplefilter("ignore")
-            mod_ast = ast.parse((TREES[tree] / m["path"]).read_text())
+            mod_ast = ast.parse((root / m["path"]).read_text())
         for n in ast.walk(mod_ast):
             if isinstance(n, ast.Name):
                 tot["names"] += 1
